@@ -3,6 +3,7 @@
 package expr
 
 import (
+	"encoding/json"
 	"github.com/grindlemire/go-lucene/internal/verifspec"
 )
 
@@ -717,8 +718,12 @@ func IsFloat64Val(a any) bool { _, ok := a.(float64); return ok }
 //@   ensures e != nil
 //@   ensures err == nil ==> DValueLeaf(e)
 
+// JSONOf: the bytes encoding/json writes for a value.
+func JSONOf(a any) []byte { b, _ := json.Marshal(a); return b }
+
 //@ func (Expression).MarshalJSON
 //@   props C12 C13
+//@   ensures[terms-are-encoded-by-encoding-json] LeafOp(e.Op) ==> string(out) == string(JSONOf(e.Left))
 //@   assert operator-name-encoded before "return json.Marshal(c)": c.Operator == NameOf(e.Op)
 //@   assert fuzzy-distance-encoded-unless-default before "return json.Marshal(c)": (c.FuzzyDistance == nil) == (e.fuzzyDistance == 1) && (c.FuzzyDistance != nil ==> *c.FuzzyDistance == e.fuzzyDistance)
 //@   assert boost-power-encoded-unless-default before "return json.Marshal(c)": (c.BoostPower == nil) == (e.boostPower == 1.0) && (c.BoostPower != nil ==> verifspec.SameFloat(*c.BoostPower, e.boostPower))
